@@ -77,23 +77,47 @@ def algebra_case(ctx, case):
     Tp = refed.base_mul_enc(te)
     ctx.state(('alg', k, mlen, tname))
     # ---- public maker
-    r, st, _ = run(P(ks) + P(m) + P(Tp) + op('MAKE_ADAPTER_SIG_PUBLIC'))
+    r, st, c = run(P(ks) + P(m) + P(Tp) + op('MAKE_ADAPTER_SIG_PUBLIC'))
     ctx.ran(); ctx.trans(4)
     if r is not None or len(st) != 2 or any(len(x) != 32 for x in st):
         ctx.violation({'op': 'MAKE_ADAPTER_SIG_PUBLIC', 'clause': 'produces (R, sa)'}, f'{case[:3]}: {r!r} {st}')
         return
     R, sa = st
+    cached_outputs(ctx, 'MAKE_ADAPTER_SIG_PUBLIC', case, P(ks) + P(m) + P(Tp) + op('MAKE_ADAPTER_SIG_PUBLIC'), 2, c,
+                   {b'R': R, b'T': Tp, b'sa': sa})
     full_chain(ctx, 'MAKE_ADAPTER_SIG_PUBLIC', case, ks, X, m, t, te, Tp, R, sa)
     # ---- private maker
-    r, st, _ = run(P(m) + P(t) + P(ks) + op('MAKE_ADAPTER_SIG_PRIVATE'))
+    r, st, c = run(P(m) + P(t) + P(ks) + op('MAKE_ADAPTER_SIG_PRIVATE'))
     ctx.ran(); ctx.trans(4)
     if r is not None or len(st) != 3 or any(len(x) != 32 for x in st):
         ctx.violation({'op': 'MAKE_ADAPTER_SIG_PRIVATE', 'clause': 'produces (T, R, sa)'}, f'{case[:3]}: {r!r} {st}')
         return
     T2, R2, sa2 = st
+    cached_outputs(ctx, 'MAKE_ADAPTER_SIG_PRIVATE', case, P(m) + P(t) + P(ks) + op('MAKE_ADAPTER_SIG_PRIVATE'), 3, c,
+                   {b'R': R2, b'T': Tp, b'sa': sa2, b't': te})
     if T2 != Tp:
         ctx.violation({'op': 'MAKE_ADAPTER_SIG_PRIVATE', 'clause': 'T = t*G'}, f'{case[:3]}: {T2.hex()} != {Tp.hex()}')
     full_chain(ctx, 'MAKE_ADAPTER_SIG_PRIVATE', case, ks, X, m, t, te, Tp, R2, sa2)
+
+
+def cached_outputs(ctx, opname, case, prog, nout, c, want):
+    """the values an instruction leaves in the cache under its documented names (all optional-cache flags are on by
+    default) are the values it documents - compared directly and read back by a later READ_CACHE of the same script"""
+    for key, w in want.items():
+        got = c.get(key)
+        if isinstance(got, (list, tuple)) and len(got) == 1:
+            got = got[0]
+        ok = isinstance(got, bytes) and (got == w if isinstance(w, bytes) else (len(got) == 32 and refed.sc(got) % L == w % L))
+        if not ok:
+            ctx.violation({'op': opname, 'clause': 'cached output @%s is the documented value' % key.decode()},
+                          f'{case[:3]}: cache[{key!r}] = {got.hex() if isinstance(got, bytes) else got!r}')
+            continue
+        r, st, _ = run(prog + op('POP0') * nout + op('READ_CACHE') + bytes([len(key)]) + key)
+        ctx.ran(); ctx.trans(nout + 2)
+        g = st[0] if r is None and len(st) == 1 else None
+        if not (isinstance(g, bytes) and (g == w if isinstance(w, bytes) else (len(g) == 32 and refed.sc(g) % L == w % L))):
+            ctx.violation({'op': opname, 'clause': 'READ_CACHE of output @%s yields the documented value' % key.decode()},
+                          f'{case[:3]}: {r!r} {st}')
 
 
 def full_chain(ctx, maker, case, ks, X, m, t, te, Tp, R, sa):
@@ -106,12 +130,13 @@ def full_chain(ctx, maker, case, ks, X, m, t, te, Tp, R, sa):
     if g != 'true':
         ctx.violation({'op': maker, 'clause': 'adapter passes CHECK_ADAPTER_SIG'}, f'{tag}: {g}')
     # decrypt with t
-    r, st, _ = run(P(sa) + P(R) + P(t) + op('DECRYPT_ADAPTER_SIG'))
+    r, st, _c = run(P(sa) + P(R) + P(t) + op('DECRYPT_ADAPTER_SIG'))
     ctx.ran(); ctx.trans(4)
     if r is not None or len(st) != 2:
         ctx.violation({'op': 'DECRYPT_ADAPTER_SIG', 'clause': 'produces (RT, s)', 'maker': maker}, f'{tag}: {r!r} {st}')
         return
     RT, s = st
+    cached_outputs(ctx, 'DECRYPT_ADAPTER_SIG', case, P(sa) + P(R) + P(t) + op('DECRYPT_ADAPTER_SIG'), 2, _c, {b'RT': RT, b's': s})
     if RT != refed.add_enc(R, Tp):
         ctx.violation({'op': 'DECRYPT_ADAPTER_SIG', 'clause': 'RT = R + T', 'maker': maker}, f'{tag}')
     if len(s) != 32 or refed.sc(s) != (refed.sc(sa) + te) % L:
